@@ -2,79 +2,282 @@
 //! parent of each node from the AST itself (by address), and compares it with what the real
 //! `Parent::parent` query returns.
 use crate::util::*;
-use cddl::ast::parent::{Parent, ParentVisitor};
+use cddl::ast::parent::ParentVisitor;
 use cddl::ast::*;
 
 struct Bad {
   what: String,
 }
 
-fn same<T>(got: Option<&T>, want: &T) -> bool {
-  matches!(got, Some(g) if std::ptr::eq(g, want))
+/// Address identity of the node a CDDLType points at (owned variants have none).
+fn addr(t: &CDDLType) -> Option<(u8, usize)> {
+  macro_rules! a {
+    ($n:expr, $r:expr) => {
+      Some(($n, *$r as *const _ as *const u8 as usize))
+    };
+  }
+  match t {
+    CDDLType::CDDL(r) => a!(0, r),
+    CDDLType::Rule(r) => a!(1, r),
+    CDDLType::TypeRule(r) => a!(2, r),
+    CDDLType::GroupRule(r) => a!(3, r),
+    CDDLType::Group(r) => a!(4, r),
+    CDDLType::GroupChoice(r) => a!(5, r),
+    CDDLType::GenericParams(r) => a!(6, r),
+    CDDLType::GenericParam(r) => a!(7, r),
+    CDDLType::GenericArgs(r) => a!(8, r),
+    CDDLType::GenericArg(r) => a!(9, r),
+    CDDLType::GroupEntry(r) => a!(10, r),
+    CDDLType::Identifier(r) => a!(11, r),
+    CDDLType::Type(r) => a!(12, r),
+    CDDLType::TypeChoice(r) => a!(13, r),
+    CDDLType::Type1(r) => a!(14, r),
+    CDDLType::Type2(r) => a!(15, r),
+    CDDLType::Operator(r) => a!(16, r),
+    CDDLType::RangeCtlOp(r) => a!(17, r),
+    CDDLType::ControlOperator(r) => a!(18, r),
+    CDDLType::Occurrence(r) => a!(19, r),
+    CDDLType::ValueMemberKeyEntry(r) => a!(20, r),
+    CDDLType::TypeGroupnameEntry(r) => a!(21, r),
+    CDDLType::MemberKey(r) => a!(22, r),
+    CDDLType::NonMemberKey(r) => a!(23, r),
+    CDDLType::Occur(_) | CDDLType::Value(_) => None,
+  }
+}
+
+/// Whole-AST walk: every (container, contained) pair of the syntax tree, the container computed
+/// from the AST itself.
+struct Walk<'a, 'b> {
+  pv: &'b ParentVisitor<'a, 'b>,
+  bad: Vec<Bad>,
+  checked: usize,
+}
+
+impl<'a, 'b: 'a> Walk<'a, 'b> {
+  fn ck(&mut self, child: CDDLType<'a, 'b>, container: CDDLType<'a, 'b>, label: &str) {
+    self.checked += 1;
+    match child.parent(self.pv) {
+      None => self.bad.push(Bad { what: format!("{}: no parent", label) }),
+      Some(p) => {
+        if addr(p) != addr(&container) {
+          self.bad.push(Bad { what: format!("{}: the parent query does not return the node that contains it", label) });
+        }
+      }
+    }
+  }
+
+  fn doc(&mut self, c: &'b CDDL<'a>) {
+    if CDDLType::CDDL(c).parent(self.pv).is_some() {
+      self.bad.push(Bad { what: "root has a parent".into() });
+    }
+    for (ri, r) in c.rules.iter().enumerate() {
+      self.ck(CDDLType::Rule(r), CDDLType::CDDL(c), &format!("rule #{}", ri));
+      match r {
+        Rule::Type { rule, .. } => {
+          self.ck(CDDLType::TypeRule(rule), CDDLType::Rule(r), &format!("rule #{} TypeRule", ri));
+          self.ck(CDDLType::Identifier(&rule.name), CDDLType::TypeRule(rule), &format!("rule #{} name `{}`", ri, rule.name));
+          if let Some(gp) = &rule.generic_params {
+            self.ck(CDDLType::GenericParams(gp), CDDLType::TypeRule(rule), "generic params");
+            self.gparams(gp);
+          }
+          self.ck(CDDLType::Type(&rule.value), CDDLType::TypeRule(rule), &format!("rule #{} type", ri));
+          self.ty(&rule.value);
+        }
+        Rule::Group { rule, .. } => {
+          self.ck(CDDLType::GroupRule(rule), CDDLType::Rule(r), &format!("rule #{} GroupRule", ri));
+          self.ck(CDDLType::Identifier(&rule.name), CDDLType::GroupRule(rule), &format!("rule #{} name `{}`", ri, rule.name));
+          if let Some(gp) = &rule.generic_params {
+            self.ck(CDDLType::GenericParams(gp), CDDLType::GroupRule(rule), "generic params");
+            self.gparams(gp);
+          }
+          self.ck(CDDLType::GroupEntry(&rule.entry), CDDLType::GroupRule(rule), &format!("rule #{} group entry", ri));
+          self.ge(&rule.entry);
+        }
+      }
+    }
+  }
+
+  fn gparams(&mut self, gp: &'b GenericParams<'a>) {
+    for p in gp.params.iter() {
+      self.ck(CDDLType::GenericParam(p), CDDLType::GenericParams(gp), "generic param");
+      self.ck(CDDLType::Identifier(&p.param), CDDLType::GenericParam(p), &format!("generic param `{}`", p.param));
+    }
+  }
+
+  fn gargs(&mut self, ga: &'b GenericArgs<'a>) {
+    for a in ga.args.iter() {
+      self.ck(CDDLType::GenericArg(a), CDDLType::GenericArgs(ga), "generic arg");
+      self.ck(CDDLType::Type1(&a.arg), CDDLType::GenericArg(a), "generic arg type1");
+      self.t1(&a.arg);
+    }
+  }
+
+  fn ty(&mut self, t: &'b Type<'a>) {
+    for (i, tc) in t.type_choices.iter().enumerate() {
+      self.ck(CDDLType::TypeChoice(tc), CDDLType::Type(t), &format!("type choice #{}", i));
+      self.ck(CDDLType::Type1(&tc.type1), CDDLType::TypeChoice(tc), &format!("type choice #{} type1", i));
+      self.t1(&tc.type1);
+    }
+  }
+
+  fn t1(&mut self, t1: &'b Type1<'a>) {
+    if let Some(op) = &t1.operator {
+      self.ck(CDDLType::Operator(op), CDDLType::Type1(t1), "operator");
+      self.ck(CDDLType::Type2(&op.type2), CDDLType::Operator(op), &format!("operator argument `{}`", op.type2));
+      self.ck(CDDLType::RangeCtlOp(&op.operator), CDDLType::Operator(op), "range/control operator");
+      if let RangeCtlOp::CtlOp { ctrl, .. } = &op.operator {
+        self.ck(CDDLType::ControlOperator(ctrl), CDDLType::RangeCtlOp(&op.operator), "control operator name");
+      }
+      self.t2(&op.type2);
+    }
+    self.ck(CDDLType::Type2(&t1.type2), CDDLType::Type1(t1), &format!("type2 `{}`", t1.type2));
+    self.t2(&t1.type2);
+  }
+
+  fn t2(&mut self, t2: &'b Type2<'a>) {
+    let me = CDDLType::Type2(t2);
+    match t2 {
+      Type2::Typename { ident, generic_args, .. } | Type2::ChoiceFromGroup { ident, generic_args, .. } => {
+        self.ck(CDDLType::Identifier(ident), me.clone(), &format!("identifier `{}`", ident));
+        if let Some(ga) = generic_args {
+          self.ck(CDDLType::GenericArgs(ga), me, "generic args");
+          self.gargs(ga);
+        }
+      }
+      Type2::Unwrap { ident, .. } => {
+        self.ck(CDDLType::Identifier(ident), me, &format!("unwrapped identifier `{}`", ident));
+      }
+      Type2::ParenthesizedType { pt, .. } => {
+        self.ck(CDDLType::Type(pt), me, "parenthesized type");
+        self.ty(pt);
+      }
+      Type2::TaggedData { t, .. } => {
+        self.ck(CDDLType::Type(t), me, "tagged type");
+        self.ty(t);
+      }
+      Type2::Map { group, .. } | Type2::Array { group, .. } | Type2::ChoiceFromInlineGroup { group, .. } => {
+        self.ck(CDDLType::Group(group), me, "group of map/array");
+        self.group(group);
+      }
+      _ => {}
+    }
+  }
+
+  fn group(&mut self, g: &'b Group<'a>) {
+    for (i, gc) in g.group_choices.iter().enumerate() {
+      self.ck(CDDLType::GroupChoice(gc), CDDLType::Group(g), &format!("group choice #{}", i));
+      for (j, (ge, _)) in gc.group_entries.iter().enumerate() {
+        self.ck(CDDLType::GroupEntry(ge), CDDLType::GroupChoice(gc), &format!("group entry #{}.{}", i, j));
+        self.ge(ge);
+      }
+    }
+  }
+
+  fn occ(&mut self, o: &'b Occurrence<'a>, container: CDDLType<'a, 'b>) {
+    self.ck(CDDLType::Occurrence(o), container, "occurrence");
+  }
+
+  fn ge(&mut self, ge: &'b GroupEntry<'a>) {
+    let me = CDDLType::GroupEntry(ge);
+    match ge {
+      GroupEntry::ValueMemberKey { ge: e, .. } => {
+        let e: &'b ValueMemberKeyEntry<'a> = e;
+        let em = CDDLType::ValueMemberKeyEntry(e);
+        self.ck(em.clone(), me, "value member key entry");
+        if let Some(o) = &e.occur {
+          self.occ(o, em.clone());
+        }
+        if let Some(mk) = &e.member_key {
+          let mkm = CDDLType::MemberKey(mk);
+          self.ck(mkm.clone(), em.clone(), "member key");
+          match mk {
+            MemberKey::Type1 { t1, .. } => {
+              self.ck(CDDLType::Type1(t1), mkm, "member key type1");
+              self.t1(t1);
+            }
+            MemberKey::Bareword { ident, .. } => {
+              self.ck(CDDLType::Identifier(ident), mkm, &format!("bareword key `{}`", ident));
+            }
+            _ => {}
+          }
+        }
+        self.ck(CDDLType::Type(&e.entry_type), em, "member type");
+        self.ty(&e.entry_type);
+      }
+      GroupEntry::TypeGroupname { ge: e, .. } => {
+        let e: &'b TypeGroupnameEntry<'a> = e;
+        let em = CDDLType::TypeGroupnameEntry(e);
+        self.ck(em.clone(), me, "type/group name entry");
+        if let Some(o) = &e.occur {
+          self.occ(o, em.clone());
+        }
+        if let Some(ga) = &e.generic_args {
+          self.ck(CDDLType::GenericArgs(ga), em.clone(), "entry generic args");
+          self.gargs(ga);
+        }
+        self.ck(CDDLType::Identifier(&e.name), em, &format!("entry name `{}`", e.name));
+      }
+      GroupEntry::InlineGroup { group, occur, .. } => {
+        if let Some(o) = occur {
+          self.occ(o, me.clone());
+        }
+        self.ck(CDDLType::Group(group), me, "inline group");
+        self.group(group);
+      }
+    }
+  }
 }
 
 /// Returns the list of nodes whose parent query is not the syntactic parent.
 fn check_doc(text: &str) -> Result<Vec<Bad>, String> {
   let cddl = cddl::parser::cddl_from_str(text, false)?;
   let pv = ParentVisitor::new(&cddl).map_err(|e| format!("ParentVisitor::new failed: {}", e))?;
-  let mut bad = vec![];
-  if Parent::<()>::parent(&cddl, &pv).is_some() {
-    bad.push(Bad { what: "root has a parent".into() });
-  }
-  for (ri, rule) in cddl.rules.iter().enumerate() {
-    if !same(Parent::<CDDL>::parent(rule, &pv), &cddl) {
-      bad.push(Bad { what: format!("rule #{}: parent is not the document", ri) });
-    }
-    if let Rule::Type { rule: tr, .. } = rule {
-      if !same(Parent::<Rule>::parent(tr, &pv), rule) {
-        bad.push(Bad { what: format!("rule #{}: TypeRule parent is not its Rule", ri) });
-      }
-      if !same(Parent::<TypeRule>::parent(&tr.name, &pv), tr) {
-        bad.push(Bad { what: format!("rule #{}: name identifier `{}`: parent is not its TypeRule", ri, tr.name) });
-      }
-      if !same(Parent::<TypeRule>::parent(&tr.value, &pv), tr) {
-        bad.push(Bad { what: format!("rule #{}: Type parent is not its TypeRule", ri) });
-      }
-      for (ci, tc) in tr.value.type_choices.iter().enumerate() {
-        if !same(Parent::<Type>::parent(tc, &pv), &tr.value) {
-          bad.push(Bad { what: format!("rule #{} choice #{}: TypeChoice parent is not its Type", ri, ci) });
-        }
-        if !same(Parent::<TypeChoice>::parent(&tc.type1, &pv), tc) {
-          bad.push(Bad { what: format!("rule #{} choice #{}: Type1 parent is not its TypeChoice", ri, ci) });
-        }
-        if !same(Parent::<Type1>::parent(&tc.type1.type2, &pv), &tc.type1) {
-          bad.push(Bad { what: format!("rule #{} choice #{}: Type2 parent is not its Type1", ri, ci) });
-        }
-        if let Type2::Typename { ident, .. } = &tc.type1.type2 {
-          if !same(Parent::<Type2>::parent(ident, &pv), &tc.type1.type2) {
-            bad.push(Bad {
-              what: format!("rule #{} choice #{}: identifier `{}`: parent is not the Type2 that contains it", ri, ci, ident),
-            });
-          }
-        }
-      }
-    }
-  }
-  Ok(bad)
+  let mut w = Walk { pv: &pv, bad: vec![], checked: 0 };
+  w.doc(&cddl);
+  Ok(w.bad)
 }
 
 /// The known class F7: some identifier text occurs at two syntactic positions (node equality of
 /// `Identifier` ignores the position, so both occurrences share one arena slot).
 fn in_known_class(text: &str) -> bool {
+  // identifiers (with their socket prefix) and control-operator names; prelude names count too
   let mut seen = std::collections::HashSet::new();
-  for tok in text.split(|c: char| !(c.is_ascii_alphanumeric() || c == '-' || c == '_')) {
-    if tok.is_empty() || tok.chars().next().unwrap().is_ascii_digit() {
+  let b: Vec<char> = text.chars().collect();
+  let mut i = 0;
+  while i < b.len() {
+    let c = b[i];
+    if c == '"' {
+      i += 1;
+      while i < b.len() && b[i] != '"' {
+        i += 1;
+      }
+      i += 1;
       continue;
     }
-    if !seen.insert(tok.to_string()) {
-      return true;
+    if c.is_ascii_alphabetic() || c == '$' || c == '_' || c == '@' || (c == '.' && i + 1 < b.len() && b[i + 1].is_ascii_alphabetic()) {
+      let mut j = i + 1;
+      while j < b.len() && (b[j].is_ascii_alphanumeric() || b[j] == '-' || b[j] == '_' || b[j] == '$' || b[j] == '.' && j + 1 < b.len() && b[j + 1].is_ascii_alphanumeric()) {
+        j += 1;
+      }
+      let tok: String = b[i..j].iter().collect();
+      if !seen.insert(tok) {
+        return true;
+      }
+      i = j;
+      continue;
     }
+    i += 1;
   }
   false
 }
 
 const RULE_NAMES: &[&str] = &["a", "b", "c"];
-const TYPES: &[&str] = &["int", "tstr", "uint", "1", "\"x\"", "[ int ]", "{ k: bool }", "nil / float", "b", "c", "any"];
+const TYPES: &[&str] = &[
+  "int", "tstr", "1", "\"x\"", "[ int ]", "{ k: bool }", "nil / float", "b", "c", "any",
+  "uint .size 4", "2..10", "bstr .cbor { issuer: tstr, serial: uint }", "[ * ( tstr, int ) ]", "[ + float ]",
+  "{ ? k: int, * tstr => any }", "{ $$ext, ext: int }", "{ tag: $label }", "#6.32(tstr)", "( int / tstr )", "&( x: 1, y: 2 )",
+  "[ 2*3 bool ]", "{ (a1: int // b1: tstr) }", "~time",
+];
 
 pub fn find(args: &[String]) -> i32 {
   let max_rules: usize = args.first().and_then(|s| s.parse().ok()).unwrap_or(2);
